@@ -32,6 +32,7 @@ def lexspec(e):
 class SessionSim(Sim):
     session_oracles: tuple = ()
     configs_per_state = 4
+    p_carried = 0.004          # sessions whose handles are carried into another interpreter
     evals = 0
 
     def __init__(self, *a, **kw):
@@ -162,6 +163,9 @@ class SessionSim(Sim):
                     self.check_placeholder_translate(w2, dict(ctx, cfg=cfg2))
         if 'relations' in self.session_oracles:
             self.check_relations(w, ctx, rng)
+        if ('relations' in self.session_oracles or 'nav' in self.session_oracles) \
+                and rng.random() < self.p_carried:
+            self.check_carried_handles(w, ctx, rng)
         if 'expand' in self.session_oracles:
             self.check_expand(w, ctx, warns, missing, rng)
         if 'invariance' in self.session_oracles and not default and len(self.retained) < 4:
@@ -173,6 +177,116 @@ class SessionSim(Sim):
 
     def v(self, oracle, msg, detail, tags=()):
         return self.violation(oracle, msg, detail, tags)
+
+    # -- entity handles carried into another interpreter ---------------------------------------
+    CARRIED_SCRIPT = r'''# -*- coding: utf-8 -*-
+import sys, json, pickle, itertools, warnings
+sys.path.insert(0, %(repo)r)
+import wn
+wn.config.data_directory = %(dir)r
+warnings.simplefilter('ignore')
+with open(%(pk)r, 'rb') as fh:
+    handles = pickle.load(fh)
+cfg = %(cfg)r
+w = wn.Wordnet(lexicon=cfg.get('lexicon'), lang=cfg.get('lang'), expand=cfg.get('expand'))
+fresh = {'w': w.words(), 's': w.senses(), 'ss': w.synsets()}
+types = %(types)r
+out = []
+def ids(xs):
+    return [[x.lexicon().specifier() if x.id != '*INFERRED*' else None, x.id] for x in xs]
+for kind, h in handles:
+    same = [x for x in fresh[kind] if x == h]
+    rec = {'kind': kind, 'id': h.id, 'found': len(same),
+           'hash_alike': all(hash(x) == hash(h) for x in same),
+           'in_set': (h in set(fresh[kind])) == bool(same),
+           'in_dict': all({x: 1}.get(h) == 1 for x in same)}
+    if kind in ('s', 'ss'):
+        rec['related'] = sorted(ids(h.get_related()))
+        rec['relations'] = {k: sorted(ids(v)) for k, v in h.relations().items()}
+        rec['closure'] = sorted(ids(itertools.islice(h.closure(*types), 300)))
+        rec['paths'] = sorted(ids(p) for p in itertools.islice(h.relation_paths(*types), 200))
+    if kind == 'w':
+        rec['senses'] = ids(h.senses())
+    out.append(rec)
+json.dump(out, sys.stdout)
+'''
+
+    def carried_record(self, kind, h, types):
+        import itertools
+
+        def ids(xs):
+            return [[x.lexicon().specifier() if x.id != INFERRED else None, x.id] for x in xs]
+        rec = {}
+        if kind in ('s', 'ss'):
+            rec['related'] = sorted(ids(h.get_related()))
+            rec['relations'] = {k: sorted(ids(v)) for k, v in h.relations().items()}
+            rec['closure'] = sorted(ids(itertools.islice(h.closure(*types), 300)))
+            rec['paths'] = sorted(ids(p) for p in
+                                  itertools.islice(h.relation_paths(*types), 200))
+        if kind == 'w':
+            rec['senses'] = ids(h.senses())
+        return rec
+
+    def check_carried_handles(self, w, ctx, rng):
+        """Entity objects pickled here (after having been hashed, as any set or dict use
+        does) and unpickled by an interpreter running under another hash seed - a worker
+        process, an on-disk cache - still denote the same stored entities: they are equal to
+        and hash like freshly fetched ones and answer relation queries identically."""
+        import json
+        import os
+        import pickle
+        import subprocess
+        import sys
+        from . import world as _world
+        handles = ([('ss', x) for x in w.synsets()[:5]] + [('s', x) for x in w.senses()[:4]]
+                   + [('w', x) for x in w.words()[:3]])
+        if not handles:
+            return
+        types = tuple(sorted(self.m.reltypes))[:6]
+        {h for _k, h in handles}                       # hashed before pickling
+        here = [self.carried_record(k, h, types) for k, h in handles]
+        wd = self.W.workdir('carried-%d-%d' % (self.step, SessionSim.evals))
+        pk = os.path.join(wd, 'handles.pickle')
+        try:
+            with open(pk, 'wb') as fh:
+                pickle.dump(handles, fh)
+        except Exception as e:
+            raise self.v('carried-handle', 'entity objects cannot be pickled',
+                         {'cfg': ctx['cfg'], 'exc': repr(e)})
+        script = os.path.join(wd, 'read.py')
+        with open(script, 'w', encoding='utf-8') as fh:
+            fh.write(self.CARRIED_SCRIPT % {'repo': _world.REPO, 'dir': self.W.node(self.W.cur),
+                                            'pk': pk, 'cfg': ctx['cfg'], 'types': types})
+        env = dict(os.environ)
+        env['PYTHONDONTWRITEBYTECODE'] = '1'
+        cur = env.get('PYTHONHASHSEED', '0')
+        env['PYTHONHASHSEED'] = rng.choice([x for x in ('0', '1', '17', '4242', '99')
+                                            if x != cur])
+        self.W.restart()          # the other interpreter is the only user meanwhile
+        p = subprocess.run([sys.executable, '-B', script], env=env, capture_output=True,
+                           timeout=300)
+        if p.returncode != 0:
+            raise self.v('carried-handle', 'using entity objects unpickled in another '
+                         'interpreter failed', {'cfg': ctx['cfg'],
+                                                'stderr': p.stderr.decode('utf-8', 'replace')[-600:]})
+        there = json.loads(p.stdout.decode('utf-8'))
+        self.probe('carried-handles')
+        for (kind, h), a, b in zip(handles, here, there):
+            for law in ('hash_alike', 'in_set', 'in_dict'):
+                if not b[law] or b['found'] != 1:
+                    raise self.v('carried-handle', 'an entity object carried into an '
+                                 'interpreter with another hash seed is not equal to / does '
+                                 'not hash like the freshly fetched object of the same entity '
+                                 '(%s)' % law, {'cfg': ctx['cfg'], 'kind': kind,
+                                                'entity': observe.ekey(h), 'there': b,
+                                                'hashseed_there': env['PYTHONHASHSEED']})
+            for k, v in a.items():
+                if json.loads(json.dumps(v)) != b.get(k):
+                    raise self.v('carried-handle', 'an entity object carried into an '
+                                 'interpreter with another hash seed answers %s differently'
+                                 % k, {'cfg': ctx['cfg'], 'kind': kind,
+                                       'entity': observe.ekey(h), 'here': v, 'there': b.get(k),
+                                       'hashseed_there': env['PYTHONHASHSEED']})
 
     # -- C04: membership --------------------------------------------------------------------
     def check_membership(self, w, ctx):
@@ -342,6 +456,10 @@ class SessionSim(Sim):
         img['ilis'] = sorted(canon([i.id, i.status, i.definition(), observe._meta(i.metadata())])
                              for i in w.ilis())
         img['expand'] = sorted(lx.specifier() for lx in w.expanded_lexicons())
+        try:
+            img['describe'] = w.describe()
+        except TypeError:
+            img['describe'] = None      # (parts of speech are sorted; a synset may have none)
         for lx in img['lexicons'].values():
             # which other lexicons exist is not a result "of the restricted Wordnet"
             lx.pop('extensions', None)
@@ -1101,3 +1219,60 @@ class SessionSim(Sim):
                     n += 1
                     if n > 200:
                         break
+        self.check_shortcut_handles(ctx, own_img, rng)
+
+    def check_shortcut_handles(self, ctx, own_img, rng):
+        """Words, senses and synsets obtained through the module-level functions belong to
+        Wordnet(lexicon, lang) with the default expand rule: synsets reached from them
+        borrow relations exactly like synsets of such a Wordnet."""
+        m = self.m
+        cfg, S, default = ctx['cfg'], ctx['S'], ctx['default']
+        E0, _missing = m.expand_set(S, default, None)
+        kw = {'lexicon': cfg.get('lexicon'), 'lang': cfg.get('lang')}
+
+        def safe(fn, *a, **k):
+            with warnings.catch_warnings():
+                warnings.simplefilter('ignore')
+                try:
+                    return fn(*a, **k)
+                except wn.Error:
+                    return None
+
+        routes = []
+        ws = safe(wn.words, **kw) or []
+        sn = safe(wn.senses, **kw) or []
+        sy = safe(wn.synsets, **kw) or []
+        for x in (rng.sample(ws, 4) if len(ws) > 4 else ws):
+            routes.append(('wn.words()[i].synsets()', safe(x.synsets) or []))
+            for s_ in x.senses()[:2]:
+                routes.append(('wn.words()[i].senses()[j].synset()', [safe(s_.synset)]))
+            y = safe(wn.word, x.id, **kw)
+            if y is not None and y == x:
+                routes.append(('wn.word(id).synsets()', safe(y.synsets) or []))
+        for x in (rng.sample(sn, 4) if len(sn) > 4 else sn):
+            routes.append(('wn.senses()[i].synset()', [safe(x.synset)]))
+            y = safe(wn.sense, x.id, **kw)
+            if y is not None and y == x:
+                routes.append(('wn.sense(id).synset()', [safe(y.synset)]))
+        for x in (rng.sample(sy, 3) if len(sy) > 3 else sy):
+            routes.append(('wn.synsets()[i]', [x]))
+        for via, sss in routes:
+            for ss in sss[:2]:
+                if ss is None:
+                    continue
+                key = observe.ekey(ss)
+                if key not in own_img['synsets']:
+                    continue
+                owner = key.split('|')[0]
+                lexscope = [x for x in m.family(owner) if x in m.installed] if default else S
+                own = [r['target'] for r in own_img['synsets'][key]['relations']['synsets'].items]
+                bor = m.expanded_relations(key, lexscope, E0, None)
+                want = {canon(t) for t in own} | {canon(r['target']) for r in bor}
+                got = {canon(tkey(t)) for t in ss.get_related()}
+                if got != want:
+                    raise self.v('expand-shortcut-handle', 'a synset reached through %s does '
+                                 'not follow the default expand rule of Wordnet(lexicon, lang)'
+                                 % via, {'args': kw, 'synset': key, 'expand_expected': E0,
+                                         'observed': sorted(got), 'expected': sorted(want)})
+                if bor:
+                    self.probe('shortcut-handle-borrows')
